@@ -37,7 +37,7 @@ def seq_configs(quick):
         # name, cfg, depth, share of the sequential budget
         ('vip/30', seq.vip_cfg('192.168.0.0/30', own, P30), d, 1),
         ('vip/29', seq.vip_cfg('192.168.0.0/29', own, P29),
-         7 if quick else 8, 6),
+         7, 6),
         ('rules', seq.rule_cfg(own), d, 1),
         ('specs', seq.spec_cfg(SPEC_OWNERS[:n]), d, 1),
         ('netsvc/30', seq.netsvc_cfg('192.168.0.0/30', n), d, 1),
@@ -46,16 +46,16 @@ def seq_configs(quick):
 
 
 def ilv_plan(quick):
-    """(name, kind, max ops per process, two-entry menu?, preemption bound)"""
+    """(name, kind, max ops per process, two-entry menu?, owner-vanishes op?,
+    preemption bound or None = unbounded)"""
     if quick:
-        return [('rules<=2', 'rule', 2, False, None),
-                ('specs<=2', 'spec', 2, False, None)]
-    return [('rules<=2', 'rule', 2, False, None),
-            ('specs<=2', 'spec', 2, False, None),
-            ('rules<=2 two entries', 'rule', 2, True, None),
-            ('specs<=2 two entries', 'spec', 2, True, None),
-            ('rules<=3', 'rule', 3, False, None),
-            ('specs<=3', 'spec', 3, False, 2)]
+        return [('rules<=2', 'rule', 2, False, True, None),
+                ('specs<=2', 'spec', 2, False, True, 2)]
+    return [('rules<=2', 'rule', 2, False, True, None),
+            ('specs<=2', 'spec', 2, False, True, None),
+            ('rules<=2 two entries', 'rule', 2, True, True, None),
+            ('rules<=3', 'rule', 3, False, True, 2),
+            ('specs<=3', 'spec', 3, False, False, 1)]
 
 
 # ---------------------------------------------------------------------------
@@ -72,24 +72,24 @@ def _length_classes(maxlen, done_upto):
 def ilv_chunks(plan):
     chunks = []
     done = {}
-    for name, kind, maxlen, wide, bound in plan:
-        key = (kind, wide)
+    for name, kind, maxlen, wide, van, bound in plan:
+        key = (kind, wide, van)
         for n0, n1 in _length_classes(maxlen, done.get(key, 0)):
-            m0, m1 = cilv.op_menus(kind, wide)
+            m0, m1 = cilv.op_menus(kind, wide, van)
             total = len(m0) ** n0 * len(m1) ** n1
             slices = max(1, min(64, total // 40))
             for ini in range(len(cilv.INITS[kind])):
                 for s in range(slices):
                     chunks.append((name, kind, wide, bound, ini, n0, n1, s,
-                                   slices))
+                                   slices, van))
         if bound is None:
             done[key] = max(done.get(key, 0), maxlen)
     return chunks
 
 
 def _chunk_cases(chunk):
-    _name, kind, wide, _bound, ini, n0, n1, s, slices = chunk
-    m0, m1 = cilv.op_menus(kind, wide)
+    _name, kind, wide, _bound, ini, n0, n1, s, slices, van = chunk
+    m0, m1 = cilv.op_menus(kind, wide, van)
     prods = itertools.product(itertools.product(m0, repeat=n0),
                               itertools.product(m1, repeat=n1))
     for i, (p0, p1) in enumerate(prods):
@@ -243,8 +243,13 @@ def _run(ctx, t0):
         if cov['nontrivial_counters'].get(k, 0) == 0:
             raise statex.HarnessError('vacuous run: counter %s is 0' % k)
     nontrivial += sum(cov['nontrivial_counters'][k] for k in NONTRIVIAL_SEQ)
-    cov['depth_completed'] = min(c['depth_completed']
-                                 for c in cov['configs'].values())
+    open_ = [c['depth_completed'] for c in cov['configs'].values()
+             if not c['space_exhausted']]
+    cov['depth_completed'] = min(open_) if open_ else max(
+        c['depth_completed'] for c in cov['configs'].values())
+    cov['depth_note'] = ('depth_completed = smallest completed depth among '
+                         'the configs whose state space was NOT exhausted '
+                         '(the others saturated earlier, see configs)')
 
     # concurrent part
     plan = ilv_plan(ctx.quick)
@@ -261,9 +266,9 @@ def _run(ctx, t0):
     cov['executions'] += runs
     cov['ilv'] = {
         'plan': [{'name': n, 'kind': k, 'max_ops_per_process': m,
-                  'two_entries': w,
+                  'two_entries': w, 'owner_vanishes_op': v,
                   'preemption_bound': 'unbounded' if b is None else b}
-                 for n, k, m, w, b in plan],
+                 for n, k, m, w, v, b in plan],
         'cases': sw.cases, 'interleavings': runs,
         'scheduling_steps': sw.counters.get('steps', 0),
         'interleavings_touching_one_entry_from_both_sides': sw.nontrivial,
@@ -274,7 +279,8 @@ def _run(ctx, t0):
                      if ': ' in k},
         'chunks': '%d/%d' % (sw.chunks_done, sw.chunks_total),
         'wall_s': round(sw.wall_s, 1),
-        'menus': {k: [[cilv.tok(o) for o in m]
+        'menus_two_entries (single-entry plans use the ops on entry 0 only)':
+        {k: [[cilv.tok(o) for o in m]
                       for m in cilv.op_menus(k, True)]
                   for k in ('rule', 'spec')},
         'initial_states': {k: [i['name'] for i in v]
@@ -288,7 +294,8 @@ def _run(ctx, t0):
     if not sw.exhaustive:
         cov['exhaustive'] = False
         cov['caps_hit'].extend('ilv: ' + c for c in sw.caps_hit)
-    cov['samples'].extend(sw.samples[:4])
+    cov['samples'] = sw.samples[:3] + cov['samples'][:3] + \
+        cov['samples'][3:]
     for v in sw.violation_list():
         confirm_ilv(v)
         violations.append(v)
@@ -309,10 +316,7 @@ def replay(ctx, data):
             return {'coverage': {}, 'violations': [
                 {'clause': v['clause'], 'site': v['api'],
                  'detail': v['detail']} for v in viol]}
-        cfgs = {n: c for n, c, _d, _s in seq_configs(True) +
-                seq_configs(False)}
-        # thorough configs win (superset of owners); quick histories only use
-        # the first two owners, which both share
+        cfgs = {n: c for n, c, _d, _s in seq_configs(ctx.quick)}
         spec = seq.Spec(cfgs[data['config']])
         w = statex.build(spec, [tuple(e) for e in data['history']])
         seen = {}
